@@ -38,6 +38,9 @@ type Ctx struct {
 	frames      []ssa.CallInstruction
 	siteMemo    map[*ssa.Function]ssa.CallInstruction
 	nilTestMemo map[*ssa.Function]map[ssa.Value]int
+	anchorHint  *ssa.Function // the function a rule enumerated last (context for helpers shared by several callers)
+	inHint      bool
+	nonNegMemo  map[*types.Var]int
 	siteDone    map[*ssa.Function]bool
 }
 
